@@ -38,7 +38,7 @@ ASSUMPTIONS = ["one actor runs at a time (sequentially consistent interleavings 
                "registration checks are linearised per registry: an add is judged against 'registered at some instant during the call'",
                "objects are placed where the (inverted, see C12) area garbage collection leaves them alone; only expiry removes objects"]
 REQUIRED_COUNTERS = ["schedules", "preempted_schedules", "object.histories_checked", "object.concurrent_histories", "provider.histories_checked",
-                     "consumer.histories_checked", "notify.callbacks_judged", "notify.passes_judged", "ids.adds_judged", "lock_waits", "notify.interval_subscriptions_judged"]
+                     "consumer.histories_checked", "notify.callbacks_judged", "notify.passes_judged", "ids.adds_judged", "lock_waits", "notify.interval_subscriptions_judged", "executions_with_a_storage_fault_on_remove"]
 
 _INS = None
 CAM = 2
